@@ -6,6 +6,7 @@ VERIF = os.path.dirname(os.path.dirname(os.path.abspath(__file__)))
 sys.path.insert(0, os.path.join(VERIF, 'ycheck')); sys.path.insert(0, VERIF)
 props = [json.loads(l) for l in open(os.path.join(VERIF, 'properties.jsonl'))]
 NA = json.load(open(os.path.join(VERIF, 'tools', 'not_applicable.json'))) if os.path.exists(os.path.join(VERIF, 'tools', 'not_applicable.json')) else {}
+CLAIMED = json.load(open(os.path.join(VERIF, 'tools', 'claimed.json')))
 fixes = []
 kf = json.load(open(os.path.join(VERIF, 'known_findings.json')))
 for f in kf.get('fixed', []):
@@ -14,7 +15,7 @@ checks = []; na = []
 for p in props:
     pid = p['id']
     path = os.path.join(VERIF, 'rules', pid + '.py')
-    if pid in NA or not os.path.exists(path):
+    if pid in NA or not os.path.exists(path) or pid not in CLAIMED:
         na.append({'property_id': pid, 'reason': NA.get(pid, 'no static rule set has been implemented for this property yet')})
         continue
     mod = importlib.import_module('rules.' + pid)
